@@ -272,3 +272,206 @@ Proof.
       rewrite (normalize_idem x n En) by (intros ->; discriminate). rewrite Enil, V. reflexivity.
   - cbn [is_nil] in E. rewrite valid_gen in E. subst r. apply vhfc_gen.
 Qed.
+
+(** * Stability of the names through the operations *)
+
+Definition stable1 (l : lease) : Prop :=
+  l_static l = false -> l_host l <> [] -> valid_hostname_for_client (l_host l) (l_ip l) = l_host l.
+
+Definition same_name (a b : lease) : Prop :=
+  l_ip a = l_ip b /\ l_host a = l_host b /\ l_static a = l_static b.
+
+(** Every lease of [L'] is a lease of [L] up to fields that do not matter
+    here, or is stable by itself. *)
+Definition Src (L L' : list lease) : Prop :=
+  forall l', In l' L' -> (exists l, In l L /\ same_name l l') \/ stable1 l'.
+
+Lemma NS_src L L' : NamesStable L -> Src L L' -> NamesStable L'.
+Proof.
+  intros H S l' Hl' Hs Hh. destruct (S l' Hl') as [(l & Hl & E1 & E2 & E3)|St]; [|apply St; auto].
+  rewrite <- E1, <- E2. apply H; congruence.
+Qed.
+
+Lemma Src_refl L : Src L L.
+Proof. intros l Hl. left. exists l. repeat split; auto. Qed.
+
+Lemma Src_trans A B C : Src A B -> Src B C -> Src A C.
+Proof.
+  intros H1 H2 l Hl. destruct (H2 l Hl) as [(b & Hb & E)|St]; auto.
+  destruct (H1 b Hb) as [(a & Ha & E')|St].
+  - left. exists a. split; auto. destruct E as (?&?&?), E' as (?&?&?). repeat split; congruence.
+  - right. intros Hs Hh. destruct E as (E1 & E2 & E3). rewrite <- E1, <- E2. apply St; congruence.
+Qed.
+
+Lemma stable1_nil l : l_host l = [] -> stable1 l.
+Proof. intros E _ H. contradiction. Qed.
+
+Lemma Src_add c l s s' : add_lease c l s = Some s' -> stable1 l -> Src (leases s) (leases s').
+Proof.
+  intros Ea St l' Hl'. apply add_lease_some in Ea as (EL & _). rewrite EL in Hl'.
+  apply in_app_iff in Hl' as [H|[<-|[]]]; auto. left. exists l'. repeat split; auto.
+Qed.
+
+Lemma Src_thin_names L L' :
+  (forall l', In l' L' -> In l' L \/ l_host l' = []) -> Src L L'.
+Proof.
+  intros H l' Hl'. destruct (H l' Hl') as [?|?]; [left; exists l'; repeat split; auto|right; apply stable1_nil; auto].
+Qed.
+
+Lemma rm_dyn_in c mac ip host ls x :
+  forall l', In l' (fst (fst (rm_dyn c mac ip host ls x))) -> In l' ls \/ l_host l' = [].
+Proof.
+  revert x; induction ls as [|l r IH]; intros x l'; cbn; [tauto|].
+  destruct ((l_mac l =? mac) || (l_ip l =? ip)).
+  - destruct (l_static l); cbn; [tauto|]. intros H. destruct (IH _ _ H); auto.
+  - destruct (negb (l_static l) && negb (is_nil (l_host l)) && eqb_bytes (l_host l) host).
+    + specialize (IH (Index (hupd (hidx x) (l_host l) None) (iidx x) (offs x)) l').
+      destruct (rm_dyn c mac ip host r _) as [[r' x'] e]. cbn in *.
+      intros [<-|H]; [right; reflexivity|]. destruct (IH H); auto.
+    + specialize (IH x l'). destruct (rm_dyn c mac ip host r x) as [[r' x'] e]. cbn in *.
+      intros [<-|H]; auto. destruct (IH H); auto.
+Qed.
+
+Lemma Src_rm_dynamic c mac ip host s : Src (leases s) (leases (fst (rm_dynamic_lease c mac ip host s))).
+Proof.
+  unfold rm_dynamic_lease. pose proof (rm_dyn_in c mac ip host (leases s) (ix s)) as H.
+  destruct (rm_dyn c mac ip host (leases s) (ix s)) as [[ls x] e]. cbn in *.
+  apply Src_thin_names; auto.
+Qed.
+
+Lemma Src_rm_index c i s : Src (leases s) (leases (rm_lease_by_index c i s)).
+Proof.
+  unfold rm_lease_by_index. destruct (nth_error (leases s) i) as [l|] eqn:E; [|apply Src_refl].
+  destruct (nth_error_split' _ _ _ E) as (l1 & l2 & EL & <-). cbn. rewrite EL, remove_nth_split.
+  apply Src_thin_names. intros l' H. left. apply in_app_iff in H. apply in_app_iff. cbn. tauto.
+Qed.
+
+Lemma Src_update_nth i f L :
+  (forall l, same_name l (f l) \/ stable1 (f l)) -> Src L (update_nth i f L).
+Proof.
+  intros Hf. revert i; induction L as [|a L IH]; intros i l'; destruct i; cbn; try tauto.
+  - intros [E|H].
+    + subst l'. destruct (Hf a) as [S|S]; [left; exists a; auto|right; auto].
+    + left; exists l'; repeat split; auto.
+  - intros [E|H].
+    + subst l'. left; exists a; repeat split; auto.
+    + destruct (IH i l' H) as [(l & Hl & E)|St]; auto. left. exists l; auto.
+Qed.
+
+Lemma Src_reserve c now mac s : Src (leases s) (leases (fst (reserve c now mac s))).
+Proof.
+  unfold reserve. destruct (next_ip c s) as [ip|].
+  - destruct (add_lease c _ s) as [s'|] eqn:Ea; cbn; [|apply Src_refl].
+    eapply Src_add; eauto. apply stable1_nil. reflexivity.
+  - destruct (find_expired now (leases s)) as [[i l]|]; cbn; [|apply Src_refl].
+    apply Src_update_nth. intros l0. left. repeat split.
+Qed.
+
+Lemma Src_commit c now i host s : Src (leases s) (leases (commit c now i host s)).
+Proof.
+  unfold commit. destruct (nth_error (leases s) i) as [l|] eqn:E; [|apply Src_refl]. cbn [leases].
+  intros l' Hl'.
+  destruct (nth_error_split' _ _ _ E) as (l1 & l2 & EL & <-).
+  rewrite EL, update_nth_split in Hl'. apply in_app_iff in Hl' as [H|[<-|H]].
+  - left. exists l'. split; [rewrite EL, in_app_iff; auto|repeat split].
+  - set (h := if is_some _ then _ else _).
+    assert (Hh : h = l_host l \/ h = [] \/ valid_hostname_for_client h (l_ip l) = h).
+    { unfold h. destruct (is_some (hidx (ix s) (valid_hostname_for_client host (l_ip l)))).
+      - destruct (is_nil (l_host l)); auto.
+        destruct (is_some (hidx (ix s) (gen_hostname (l_ip l)))); auto. right. right. apply vhfc_gen.
+      - destruct (valid_hostname_for_client host (l_ip l)) as [|b t] eqn:Ev; auto.
+        right. right. rewrite <- Ev. eapply vhfc_idem; eauto. rewrite Ev. discriminate. }
+    destruct Hh as [Hh|[Hh|Hh]].
+    + left. exists l. split; [rewrite EL, in_app_iff; cbn; auto|]. cbn. repeat split; auto.
+    + right. apply stable1_nil. cbn. auto.
+    + right. intros _ _. cbn. exact Hh.
+  - left. exists l'. split; [rewrite EL, in_app_iff; cbn; auto|repeat split].
+Qed.
+
+Lemma NS_load c d : NamesStable (leases (load c d)).
+Proof.
+  unfold load.
+  assert (G : forall d s, (forall l, In l (leases s) -> stable1 l) ->
+                          forall l, In l (leases (fold_left (load_step c) d s)) -> stable1 l).
+  { clear d. induction d as [|a d IH]; intros s H; cbn; auto. apply IH.
+    unfold load_step. destruct (add_lease c (reload_lease a) s) as [s'|] eqn:Ea; auto.
+    apply add_lease_some in Ea as (-> & _). intros l Hl. apply in_app_iff in Hl as [?|[<-|[]]]; auto.
+    unfold reload_lease. destruct (negb (l_static a) && negb (is_nil (l_host a))) eqn:Ec.
+    - intros _ Hh. cbn in *. eapply vhfc_idem; eauto.
+    - intros Hs Hh. rewrite Hs in Ec. cbn in Ec. apply negb_false_iff, is_nil_spec in Ec. contradiction. }
+  intros l Hl. apply (G d (State [] empty_index d)); auto. cbn. tauto.
+Qed.
+
+Lemma Src_rm_lease c ip mac host s s1 : rm_lease c ip mac host s = Some s1 -> Src (leases s) (leases s1).
+Proof.
+  intros H. apply rm_lease_some in H as [[-> _]|(l1 & l & l2 & _ & _ & _ & -> & _)];
+    [apply Src_refl|apply Src_rm_index].
+Qed.
+
+Lemma stable1_static ip mac h e : stable1 (Lease ip mac h true e).
+Proof. intros H; discriminate. Qed.
+
+Theorem step_names c s now o :
+  NamesStable (leases s) -> NamesStable (leases (fst (step c s now o))).
+Proof.
+  intros H. destruct o; cbn [step fst]; auto.
+  - (* discover *)
+    unfold discover. destruct (find_lease mac (leases s)) as [[? ?]|]; cbn; auto.
+    pose proof (Src_reserve c now mac s) as R.
+    destruct (reserve c now mac s) as [s' r]; cbn in *.
+    destruct r; cbn; eapply NS_src; eauto.
+  - (* request *)
+    unfold request. destruct (request_lease c mac sid reqip ciaddr s) as [r|[i l]]; cbn; auto.
+    destruct (l_static l); cbn; auto. eapply NS_src; eauto. apply Src_commit.
+  - (* decline *)
+    unfold decline. destruct (find_index _ (leases s)) as [[? old]|]; cbn; auto.
+    pose proof (Src_rm_dynamic c (l_mac old) (l_ip old) (l_host old) s) as R1.
+    destruct (rm_dynamic_lease c (l_mac old) (l_ip old) (l_host old) s) as [s1 e]; cbn in *.
+    assert (H1 : NamesStable (leases s1)) by (eapply NS_src; eauto).
+    destruct e; cbn; auto.
+    pose proof (Src_reserve c now mac s1) as R2.
+    destruct (reserve c now mac s1) as [s2 r]; cbn in *.
+    assert (H2 : NamesStable (leases s2)) by (eapply NS_src; eauto).
+    destruct r; cbn; auto. eapply NS_src; eauto. apply Src_commit.
+  - (* release *)
+    unfold release. destruct (find_index _ (leases s)) as [[? old]|]; cbn; auto.
+    pose proof (Src_rm_dynamic c (l_mac old) (l_ip old) (l_host old) s) as R1.
+    destruct (rm_dynamic_lease c (l_mac old) (l_ip old) (l_host old) s) as [s1 e]; cbn in *.
+    destruct e; cbn; eapply NS_src; eauto.
+  - (* static add *)
+    unfold static_add. destruct (ip =? c_gw c); cbn; auto.
+    destruct (if is_nil host then Some [] else _) as [h|]; cbn; auto.
+    pose proof (Src_rm_dynamic c mac ip h s) as R1.
+    destruct (rm_dynamic_lease c mac ip h s) as [s1 e]; cbn in *.
+    assert (H1 : NamesStable (leases s1)) by (eapply NS_src; eauto).
+    destruct e; cbn; auto.
+    destruct (add_lease c _ s1) as [s2|] eqn:Ea; cbn; auto.
+    eapply NS_src; eauto. eapply Src_add; eauto. apply stable1_static.
+  - (* static update *)
+    unfold static_update. destruct (find_lease mac (leases s)) as [[? found]|]; cbn; auto.
+    destruct (validate_static c mac ip host s) as [h|]; cbn; auto.
+    destruct (rm_lease c _ _ _ s) as [s1|] eqn:Er; cbn; auto.
+    assert (H1 : NamesStable (leases s1)) by (eapply NS_src; eauto using Src_rm_lease).
+    destruct (add_lease c _ s1) as [s2|] eqn:Ea; cbn; auto.
+    eapply NS_src; eauto. eapply Src_add; eauto. apply stable1_static.
+  - (* static remove *)
+    unfold static_remove. destruct (rm_lease c ip mac host s) as [s1|] eqn:Er; cbn; auto.
+    eapply NS_src; eauto using Src_rm_lease.
+  - (* restart *)
+    apply NS_load.
+Qed.
+
+Theorem names_stable_reachable c h : NamesStable (leases (run c h empty_state)).
+Proof.
+  assert (G : forall s, NamesStable (leases s) -> NamesStable (leases (run c h s))).
+  { unfold run. induction h as [|[now o] h IH]; intros s H; cbn; auto. apply IH, step_names; auto. }
+  apply G. intros l [].
+Qed.
+
+(** Persistence, full statement. *)
+Theorem persistence_full : persistence_statement.
+Proof.
+  intros c h s s'. apply persistence.
+  - apply full_inv_reachable.
+  - apply names_stable_reachable.
+Qed.
